@@ -1405,4 +1405,25 @@ theorem nestCopyCapped_le (ver : Nat) : ∀ (d k : Nat), nestCopyCapped ver d k 
     simp only [nestCopyCapped, Nat.add_mul, Nat.one_mul]
     omega
 
+/-! ## one hasher per signature packet -/
+
+theorem feedHashers_sum (hashers chunks : List Nat) :
+    (feedHashers hashers chunks).sum = hashers.sum + hashers.length * chunks.sum := by
+  unfold feedHashers
+  induction chunks generalizing hashers with
+  | nil => simp
+  | cons c cs ih =>
+    have hmap : (hashers.map (· + c)).sum = hashers.sum + hashers.length * c := by
+      induction hashers with
+      | nil => simp
+      | cons h hs ihh => simp [ihh, Nat.add_mul]; omega
+    simp only [List.foldl_cons, List.sum_cons]
+    rw [ih, hmap, List.length_map, Nat.mul_add]
+    omega
+
+theorem sigHashWork_eq (n : Nat) (chunks : List Nat) : sigHashWork n chunks = n * chunks.sum := by
+  unfold sigHashWork
+  rw [feedHashers_sum]
+  simp
+
 end Rpgp.Resource
